@@ -39,6 +39,9 @@ type instrumenter struct {
 	// deferred calls. Only such steps can release a blocked goroutine.
 	syncSite []bool
 	inDefer  int
+	// syncLoop > 0: inside a loop whose header (condition, post statement, range
+	// over something that may be a channel) runs again between body statements
+	syncLoop int
 	skip  map[*ast.BlockStmt]bool
 	rel   string
 	skipFunc map[string]bool
@@ -47,9 +50,14 @@ type instrumenter struct {
 var syncNames = map[string]bool{"Lock": true, "Unlock": true, "RLock": true, "RUnlock": true, "Wait": true, "Done": true, "Add": true, "Signal": true, "Broadcast": true,
 	"Do": true, "Store": true, "Load": true, "Swap": true, "CompareAndSwap": true, "Get": true, "Put": true, "Range": true, "Delete": true, "LoadOrStore": true, "Go": true, "Acquire": true, "Release": true, "TryLock": true, "Close": true, "Kill": true, "Exit": true}
 
-func stmtMaySync(s ast.Stmt) bool {
+// nodeMaySync: does evaluating this expression / simple statement contain a
+// construct through which goroutines synchronise?
+func nodeMaySync(n ast.Node) bool {
+	if n == nil || n == ast.Node(nil) {
+		return false
+	}
 	found := false
-	ast.Inspect(s, func(n ast.Node) bool {
+	ast.Inspect(n, func(n ast.Node) bool {
 		if found {
 			return false
 		}
@@ -63,7 +71,7 @@ func stmtMaySync(s ast.Stmt) bool {
 				found = true
 			}
 		case *ast.RangeStmt:
-			found = true // may range over a channel; cheap over-approximation
+			found = true
 		case *ast.CallExpr:
 			switch f := x.Fun.(type) {
 			case *ast.SelectorExpr:
@@ -81,13 +89,87 @@ func stmtMaySync(s ast.Stmt) bool {
 	return found
 }
 
+func stmtOrNil(s ast.Stmt) ast.Node {
+	if s == nil {
+		return nil
+	}
+	return s
+}
+
+func exprOrNil(e ast.Expr) ast.Node {
+	if e == nil {
+		return nil
+	}
+	return e
+}
+
+// rangeMaySync: ranging over a channel (or an iterator function) synchronises;
+// the operand's type decides (see types.go). Without type information a plain
+// variable or field may be a channel.
+func rangeMaySync(x *ast.RangeStmt) bool {
+	if nodeMaySync(x.X) {
+		return true
+	}
+	return theTypes.rangesOverChannel(x.X)
+}
+
+var theTypes *typeInfo
+
+// loopHeaderMaySync: the parts of a loop that run again at every iteration.
+func loopHeaderMaySync(s ast.Stmt) bool {
+	switch x := s.(type) {
+	case *ast.ForStmt:
+		return nodeMaySync(exprOrNil(x.Cond)) || nodeMaySync(stmtOrNil(x.Post))
+	case *ast.RangeStmt:
+		return rangeMaySync(x)
+	}
+	return false
+}
+
+// stmtMaySync looks at what the step that starts at this statement's site
+// executes before the next site: for compound statements that is the header
+// only, the statements of their bodies carry their own sites.
+func stmtMaySync(s ast.Stmt) bool {
+	switch x := s.(type) {
+	case *ast.BlockStmt:
+		return false
+	case *ast.LabeledStmt:
+		return stmtMaySync(x.Stmt)
+	case *ast.IfStmt:
+		return nodeMaySync(stmtOrNil(x.Init)) || nodeMaySync(exprOrNil(x.Cond))
+	case *ast.ForStmt:
+		return nodeMaySync(stmtOrNil(x.Init)) || nodeMaySync(exprOrNil(x.Cond)) || nodeMaySync(stmtOrNil(x.Post))
+	case *ast.RangeStmt:
+		return rangeMaySync(x)
+	case *ast.SwitchStmt:
+		if nodeMaySync(stmtOrNil(x.Init)) || nodeMaySync(exprOrNil(x.Tag)) {
+			return true
+		}
+		for _, c := range x.Body.List {
+			if cc, ok := c.(*ast.CaseClause); ok {
+				for _, e := range cc.List {
+					if nodeMaySync(e) {
+						return true
+					}
+				}
+			}
+		}
+		return false
+	case *ast.TypeSwitchStmt:
+		return nodeMaySync(stmtOrNil(x.Init)) || nodeMaySync(stmtOrNil(x.Assign))
+	case *ast.SelectStmt:
+		return true
+	}
+	return nodeMaySync(s)
+}
+
 func (in *instrumenter) site(pos token.Pos) ast.Stmt { return in.siteFor(pos, nil) }
 
 func (in *instrumenter) siteFor(pos token.Pos, stmt ast.Stmt) ast.Stmt {
 	p := in.fset.Position(pos)
 	id := len(in.sites)
 	in.sites = append(in.sites, fmt.Sprintf("%s:%d", in.rel, p.Line))
-	in.syncSite = append(in.syncSite, in.inDefer > 0 || (stmt != nil && stmtMaySync(stmt)))
+	in.syncSite = append(in.syncSite, in.inDefer > 0 || in.syncLoop > 0 || (stmt != nil && stmtMaySync(stmt)))
 	return &ast.ExprStmt{X: &ast.CallExpr{
 		Fun:  &ast.SelectorExpr{X: ast.NewIdent("verifhook"), Sel: ast.NewIdent("Yield")},
 		Args: []ast.Expr{&ast.BasicLit{Kind: token.INT, Value: fmt.Sprint(id)}},
@@ -160,8 +242,10 @@ func (in *instrumenter) file(f *ast.File) {
 	// stack of visited nodes, so that leaving a function restores the flag of
 	// the enclosing one
 	type frame struct {
-		isFunc bool
-		prev   int
+		isFunc   bool
+		prev     int
+		prevLoop int
+		isLoop   bool
 	}
 	var stack []frame
 	ast.Inspect(f, func(n ast.Node) bool {
@@ -170,6 +254,10 @@ func (in *instrumenter) file(f *ast.File) {
 			stack = stack[:len(stack)-1]
 			if fr.isFunc {
 				in.inDefer = fr.prev
+				in.syncLoop = fr.prevLoop
+			}
+			if fr.isLoop {
+				in.syncLoop--
 			}
 			return true
 		}
@@ -178,9 +266,15 @@ func (in *instrumenter) file(f *ast.File) {
 		}
 		fr := frame{}
 		switch x := n.(type) {
+		case *ast.ForStmt, *ast.RangeStmt:
+			if loopHeaderMaySync(x.(ast.Stmt)) {
+				fr.isLoop = true
+				in.syncLoop++
+			}
 		case *ast.FuncDecl:
-			fr = frame{true, in.inDefer}
+			fr = frame{isFunc: true, prev: in.inDefer, prevLoop: in.syncLoop}
 			in.inDefer = 0
+			in.syncLoop = 0
 			if x.Body != nil {
 				funcs = append(funcs, x.Body)
 				if hasDefer[x.Body] {
@@ -188,8 +282,9 @@ func (in *instrumenter) file(f *ast.File) {
 				}
 			}
 		case *ast.FuncLit:
-			fr = frame{true, in.inDefer}
+			fr = frame{isFunc: true, prev: in.inDefer, prevLoop: in.syncLoop}
 			in.inDefer = 0
+			in.syncLoop = 0
 			funcs = append(funcs, x.Body)
 			if hasDefer[x.Body] {
 				in.inDefer = 1
@@ -239,6 +334,24 @@ func main() {
 		}
 	}
 	overlay := map[string]string{}
+	{
+		seen := map[string]bool{}
+		var dirs []string
+		for _, arg := range flag.Args() {
+			d := arg
+			if st, err := os.Stat(filepath.Join(*repo, arg)); err == nil && !st.IsDir() {
+				d = filepath.Dir(arg)
+			}
+			if !seen[d] {
+				seen[d] = true
+				dirs = append(dirs, d)
+			}
+		}
+		theTypes = loadTypes(in.fset, *repo, dirs)
+		for _, n := range theTypes.notes {
+			fmt.Println("instr: note:", n)
+		}
+	}
 	for _, arg := range flag.Args() {
 		// arg is either a package directory or a single file, relative to repo
 		var files []string
@@ -269,7 +382,10 @@ func main() {
 				fmt.Fprintf(os.Stderr, "instr: %s carries compiler directives; refusing to drop them\n", rel)
 				os.Exit(2)
 			}
-			f, err := parser.ParseFile(in.fset, filepath.Join(*repo, rel), src, parser.ParseComments)
+			f, err := theTypes.files[filepath.Join(*repo, rel)], error(nil)
+			if f == nil {
+				f, err = parser.ParseFile(in.fset, filepath.Join(*repo, rel), src, parser.ParseComments)
+			}
 			if err != nil {
 				fmt.Fprintln(os.Stderr, "instr: parse:", err)
 				os.Exit(2)
